@@ -130,6 +130,47 @@ class Flow:
         self._defs: dict[str, Defs] = {}
         self._ret_cache: dict[str, set] = {}
 
+    def memo_decorators(self) -> set:
+        """Names of the package's memoising decorators, recognised by what
+        they do (an inner wrapper that stores its result into a dict attribute
+        of ``self``), plus the functools caches."""
+        got = getattr(self, "_memo_decos", None)
+        if got is None:
+            got = {"functools.lru_cache", "lru_cache", "functools.cache", "cache", "cached_property", "functools.cached_property"}
+            for mi in self.repo.modules.values():
+                for name, f in mi.functions.items():
+                    if isinstance(f.node, ast.Lambda):
+                        continue
+                    inner = [x for x in ast.walk(f.node) if isinstance(x, ast.FunctionDef) and x is not f.node]
+                    stores = [
+                        1 for n in ast.walk(f.node) if isinstance(n, ast.Assign) for t in n.targets
+                        if isinstance(t, ast.Subscript) and isinstance(t.value, ast.Attribute)
+                        and isinstance(t.value.value, ast.Name) and t.value.value.id == "self"
+                    ]
+                    if inner and stores:
+                        got.add(name)
+            self._memo_decos = got
+        return got
+
+    def _is_mask_index(self, fi: FuncInfo, idx: ast.AST, _depth: int = 0) -> bool:
+        """The index is a boolean mask array: ``~np.isnan(a)``, ``a > 0``,
+        ``np.isin(...)``, a local defined as one of those."""
+        if _depth > 3:
+            return False
+        if isinstance(idx, ast.Name):
+            ds = [d for d in self.defs(fi).of(idx.id) if d[0] == "value" and d[1] is not None]
+            return len(ds) == 1 and self._is_mask_index(fi, ds[0][1], _depth + 1)
+        if isinstance(idx, ast.UnaryOp) and isinstance(idx.op, ast.Invert):
+            return True
+        if isinstance(idx, ast.Compare):
+            return True
+        if isinstance(idx, ast.BinOp) and isinstance(idx.op, (ast.BitAnd, ast.BitOr)):
+            return self._is_mask_index(fi, idx.left, _depth + 1) or self._is_mask_index(fi, idx.right, _depth + 1)
+        if isinstance(idx, ast.Call):
+            name = ast.unparse(idx.func).split(".")[-1]
+            return name in ("isnan", "isfinite", "isinf", "isin", "logical_and", "logical_or", "logical_not", "nonzero", "flatnonzero", "where")
+        return False
+
     def defs(self, fi: FuncInfo) -> Defs:
         d = self._defs.get(fi.qualname)
         if d is None:
@@ -229,6 +270,9 @@ class Flow:
                 if heads and all(h in ("builtins.list", "builtins.tuple", "builtins.str") for h in heads):
                     return {("fresh",)}
                 return base
+            if self._is_mask_index(fi, n.slice):
+                # a[mask] (boolean / fancy indexing) builds a new array
+                return {("fresh",)}
             return {("elem", b) if b[0] != "fresh" else ("elemfresh",) for b in base}
         if isinstance(n, ast.Call):
             f = n.func
@@ -241,7 +285,7 @@ class Flow:
             if targets:
                 out = set()
                 for t in targets:
-                    if "_dispatcher_cache" in t.decorators:
+                    if self.memo_decorators() & set(t.decorators):
                         out.add(("cached", t.qualname, n))
                         continue
                     if t.name == "__init__":
